@@ -323,12 +323,19 @@ func buildIntrinsics() map[string]Intrinsic {
 			m.maxPreempt = int(m.concreteInt(fr, a[0].(*Term), "preemption bound"))
 			return nil
 		}
+		t[p+"vGhostExploreAtomics"] = func(m *Machine, fr *Frame, fn *ssa.Function, a []Value) Value {
+			m.exploreSched = true
+			m.atomicOnly = true
+			m.maxPreempt = int(m.concreteInt(fr, a[0].(*Term), "preemption bound"))
+			return nil
+		}
 		t[p+"vGhostTimeSlip"] = func(m *Machine, fr *Frame, fn *ssa.Function, a []Value) Value {
 			m.timeSlip = m.concreteInt(fr, a[0].(*Term), "time slip")
 			return nil
 		}
 		t[p+"vGhostExploreOff"] = func(m *Machine, fr *Frame, fn *ssa.Function, a []Value) Value {
 			m.exploreSched = false
+			m.atomicOnly = false
 			return nil
 		}
 		t[p+"vGhostAllocMax"] = func(m *Machine, fr *Frame, fn *ssa.Function, a []Value) Value {
@@ -907,7 +914,19 @@ func addAtomicIntrinsics(t map[string]Intrinsic) {
 			if key != nil {
 				m.hbAcquire(key)
 			}
+			if m.atomicOnly {
+				// exploration restricted to atomic operations: a scheduling point before and after each of them (and
+				// nowhere else, except where goroutines block)
+				m.inAtomicOp = true
+				m.syncPoint(fr)
+				m.inAtomicOp = false
+			}
 			r := f(m, fr, fn, a)
+			if m.atomicOnly {
+				m.inAtomicOp = true
+				m.syncPoint(fr)
+				m.inAtomicOp = false
+			}
 			if key != nil && !isLoad {
 				m.hbRelease(key)
 			}
